@@ -629,6 +629,9 @@ func checkC08(c *Ctx) {
 	c08EventInFlight(c)
 	eventDuringFlush(c, "C08")
 	c03Rekey(c) // a second pair-verify on an encrypted connection: the answer under the old keys, everything after it under the new ones
+	// events of the application meet large answers, two requests sent in one frame, and a second pair-verify of the
+	// subscribed connection, through the real server
+	c10DuringResponse(c)
 	c.SetRule("one case = one schedule of 2..6 concurrent Connection.Write calls on a real hap.Connection (forced: enumerated " +
 		"choice sequences over the stop points before-Write / in-Encrypt / in-socket-write; free: Gosched/sleep noise, optional " +
 		"hap.KeepAlive writer). non-trivial = a writer was parked or entered while another was inside. distinct = distinct event traces per configuration")
